@@ -332,6 +332,9 @@ func loadKnown() []Known {
 	return ks
 }
 
+// LoadKnown exposes the committed known-findings list.
+func LoadKnown() []Known { return loadKnown() }
+
 // ---------------------------------------------------------------------------------------------
 // main
 
@@ -629,4 +632,62 @@ func doReplay(spec *Spec, path string) int {
 	}
 	fmt.Fprintf(os.Stderr, "scenario %q not found\n", f.Scenario)
 	return 2
+}
+
+// ---------------------------------------------------------------------------------------------
+// helpers for sequential (input-enumerating) checks
+
+// Report records a violation found by a sequential enumeration. input is stored in the replay
+// file (it must be enough to re-run the case through Spec.ReplaySeq).
+func (p *Part) Report(sig, desc, scenario string, input interface{}) {
+	for _, g := range p.Findings {
+		if g.Sig == sig {
+			g.Count++
+			return
+		}
+	}
+	b, _ := json.Marshal(input)
+	p.Findings = append(p.Findings, &Finding{Sig: sig, Desc: desc, Scenario: scenario, Input: b, Count: 1})
+}
+
+// Count adds to a coverage counter.
+func (p *Part) Count(key string, n int) { p.Counters[key] += n }
+
+// Outcome records one observed outcome class.
+func (p *Part) Outcome(key string) { p.Outcomes[key]++ }
+
+// Sample keeps up to three example cases per shard.
+func (p *Part) Sample(x interface{}) {
+	if len(p.Samples) < 3 {
+		p.Samples = append(p.Samples, x)
+	}
+}
+
+// Case accounts for one evaluated case; nontrivial says whether it exercised the mechanism;
+// states/transitions are the model-checking style counts (distinct states reached / steps).
+func (p *Part) Case(nontrivial bool, states, transitions int) {
+	p.Execs++
+	p.States += states
+	p.Transitions += transitions
+	if nontrivial {
+		p.NonTrivial++
+	}
+}
+
+// Incompletef marks the run as not exhaustive (a cap was hit).
+func (p *Part) Incompletef(format string, a ...interface{}) {
+	p.Incomplete = append(p.Incomplete, fmt.Sprintf(format, a...))
+}
+
+// Errorf records a machinery error (exit 2).
+func (p *Part) Errorf(format string, a ...interface{}) {
+	p.Errors = append(p.Errors, fmt.Sprintf(format, a...))
+}
+
+// Deadline returns the time at which a sequential run of the tier should stop enumerating.
+func Deadline(tier string, quick, thorough time.Duration) time.Time {
+	if tier == "thorough" {
+		return time.Now().Add(thorough)
+	}
+	return time.Now().Add(quick)
 }
